@@ -1,7 +1,7 @@
 #include "queues_common.hpp"
 #include <xenium/ramalhete_queue.hpp>
 using namespace qh;
-namespace {
+namespace hx_queues_ram {
 template <class R, unsigned E, unsigned PR>
 using RQ = xenium::ramalhete_queue<int*, xenium::policy::reclaimer<R>, xenium::policy::entries_per_node<E>, xenium::policy::pop_retries<PR>>;
 const Config cfgs[] = {
